@@ -42,11 +42,11 @@ THEOREMS = [
     'Pyiga.Props.C20.current_interrupted_link_leaves_partial',
     'Pyiga.Props.C20.current_crash_witness', 'Pyiga.Props.C20.current_crash_persists',
     'Pyiga.Props.C20.current_race_import_witness', 'Pyiga.Props.C20.current_race_build_witness',
-    'Pyiga.Props.C20.current_unsafe',
+    'Pyiga.Props.C20.current_unsafe', 'Pyiga.Props.C20.current_lone_builder_ok',
     'Pyiga.Props.C20.safe_repaired_from', 'Pyiga.Props.C20.safe_repaired',
     'Pyiga.Props.C20.published_never_replaced', 'Pyiga.Props.C20.request_succeeds',
     'Pyiga.Props.C20.recovery', 'Pyiga.Props.C20.recovery_after_crashes',
-    'Pyiga.Props.C20.step_touches_only_own_entry',
+    'Pyiga.Props.C20.step_touches_only_own_entry', 'Pyiga.Props.C20.repaired_heals_rejected_entry',
     'Pyiga.Props.C20.digest_injectivity_needed', 'Pyiga.Props.C20.sharedTmp_unsafe',
 ]
 MODULES = ['Pyiga.Model.CompileCache', 'Pyiga.Proofs.CompileCache', 'Pyiga.Props.C20']
@@ -377,6 +377,17 @@ def _run(ctx, lab):
 
     pool = ThreadPoolExecutor(14)
     futs = []
+    # --replay <file>: re-run only the recorded case (its stream and parameters)
+    rp = None
+    if getattr(ctx, 'replay_file', None):
+        rp = json.load(open(ctx.replay_file)).get('replay', {})
+
+    def want(stream, **kw):
+        if rp is None:
+            return True
+        if rp.get('stream') != stream:
+            return False
+        return all(json.loads(json.dumps(v)) == rp.get(k) for k, v in kw.items())
 
     # ---- stream A: complete build, one external fault, fresh process --------------------------
     def fault_case(akey, cls):
@@ -396,8 +407,9 @@ def _run(ctx, lab):
     for akey in sorted(base_scan):
         # quick tier: every class on the extension module, two seeded classes on each other artefact
         cl = CLASSES if (akey[-1] == 'so' or not quick) else [CLASSES[i] for i in sorted(rng.permutation(len(CLASSES))[:2].tolist())]
-        for cls in cl:
-            futs.append(pool.submit(fault_case, akey, cls))
+        for cls in (CLASSES if rp else cl):
+            if want('fault', **{'file': akey, 'class': cls}):
+                futs.append(pool.submit(fault_case, akey, cls))
 
     # ---- stream B: build killed at a stage, fresh process ---------------------------------------
     mk = 0 if inplace else 1
@@ -423,36 +435,48 @@ def _run(ctx, lab):
         return ('stage', how, stage, k, second_fault, r0, sc1, r1, sc2)
 
     for (how, stage, k) in stages:
-        futs.append(pool.submit(stage_case, how, stage, k))
+        if want('stage', stage=stage, then_fault=None):
+            futs.append(pool.submit(stage_case, how, stage, k))
     # faults in sequence across restarts: every file a killed build leaves x fault classes
     seq = [(('wrap', 'postlink', 9 + mk), ((('S',) if inplace else ('P', 0)) + (kind,)), cls)
            for kind in KINDS for cls in CLASSES if not (inplace and kind == 'so')]
     seq += [(('wrap', 'ld', 7 + mk), ((('S',) if inplace else ('P', 0)) + (kind,)), cls) for kind in ('pyx', 'c', 'o') for cls in CLASSES]
-    if quick:
+    if quick and not rp:
         seq = [seq[i] for i in sorted(rng.permutation(len(seq))[:3].tolist())]
     for (st, akey, cls) in seq:
-        futs.append(pool.submit(stage_case, st[0], st[1], st[2], (akey, cls)))
+        if want('stage', stage=st[1], then_fault=(akey, cls)):
+            futs.append(pool.submit(stage_case, st[0], st[1], st[2], (akey, cls)))
 
     # ---- stream C: SIGKILL of the whole build (process group) at seeded random times -----------
-    def kill_case(delay):
+    def kill_case(milestone, jitter):
+        """SIGKILL the whole process group `jitter` seconds after the first file of kind `milestone` appears anywhere
+        below MODDIR (kill points are tied to the build's own progress, so they do not depend on machine load)"""
         d = lab.dir('kill')
         p = subprocess.Popen([PY, '-B', '-c', WORKER, 'mass', '0'], env=child_env(d), stdout=subprocess.PIPE,
                              stderr=subprocess.DEVNULL, start_new_session=True)
-        try:
-            p.communicate(timeout=delay)
-            finished = True
-        except subprocess.TimeoutExpired:
-            finished = False
-            kill_group(p)
+        suffix = {'pyx': '.pyx', 'c': '.c', 'o': '.o', 'so': '.so'}[milestone]
+        seen = None
+        t = time.time()
+        while p.poll() is None and time.time() - t < 600:
+            if seen is None:
+                for root, dirs, files in os.walk(d):
+                    if any(f.endswith(suffix) for f in files):
+                        seen = time.time()
+            if seen is not None and time.time() - seen >= jitter:
+                break
+            time.sleep(0.003)
+        finished = p.poll() is not None
+        kill_group(p)
         sc1 = scan(d, refsrc)
         r1 = run_worker(d)
         shutil.rmtree(d, ignore_errors=True)
-        return ('kill', round(delay, 3), finished, sc1, r1)
+        return ('kill', '%s+%.3fs' % (milestone, jitter), finished, sc1, r1)
 
-    nk = 4 if quick else 48
-    bt = ctx.extra['baseline_build_s']      # kill times relative to how long a build takes on this machine right now
-    for delay in (bt * (0.3 + 0.8 * rng.random(nk))).tolist():
-        futs.append(pool.submit(kill_case, delay))
+    nk = (4 if quick else 48) if want('kill') else 0
+    for _ in range(nk):
+        m = str(rng.choice(['pyx', 'c', 'o', 'o', 'so']))
+        jit = float(rng.random()) * {'pyx': 2.0, 'c': 4.0, 'o': 0.2, 'so': 0.05}[m]
+        futs.append(pool.submit(kill_case, m, jit))
 
     # ---- stream D: racing processes ----------------------------------------------------------------------
     def race(forms, offsets):
@@ -504,8 +528,10 @@ def _run(ctx, lab):
         rounds.append((['mass'] * n, (spread * rng.random(n)).tolist()))
     rounds.append((['mass', 'stiff'] * (2 if quick else 4), (0.3 * rng.random(4 if quick else 8)).tolist()))
     # quick: all rounds at once next to the other streams; thorough: one round at a time (cleaner timing)
+    if rp is not None:
+        rounds = [(rp['forms'], rp['start_offsets_s'])] * 3 if rp.get('stream') == 'race' else []
     rpool = ThreadPoolExecutor(len(rounds) + 1 if quick else 1)
-    rfuts = [rpool.submit(race, f, o) for f, o in rounds] + [rpool.submit(held_link_race) for _ in range(1 if quick else 4)]
+    rfuts = [rpool.submit(race, f, o) for f, o in rounds] + [rpool.submit(held_link_race) for _ in range((1 if quick else 4) if want('held-link-race') else 0)]
 
     results = [f.result() for f in futs]
     pool.shutdown()
@@ -572,18 +598,36 @@ def _run(ctx, lab):
             ctx.case(('kill', delay))
             ctx.count('random-kill-cases')
             ctx.count('random-kill-state:' + states(sc1, 1))
-            replay = {'stream': 'kill', 'delay_s': delay, 'builder_finished_before_kill': finished, 'state_after_kill': states(sc1), 'fresh_process': r1}
+            replay = {'stream': 'kill', 'kill_point': delay, 'builder_finished_before_kill': finished, 'state_after_kill': states(sc1), 'fresh_process': r1}
             if r1['outcome'] != 'ok':
-                record_failure(ctx, 'kill:random-time', 'SIGKILL of the build after %.3fs left %s; fresh process ended with %s' % (delay, states(sc1), json.dumps(r1)), replay, sc1)
+                record_failure(ctx, 'kill:random-time', 'SIGKILL of the build at %s left %s; fresh process ended with %s' % (delay, states(sc1), json.dumps(r1)), replay, sc1)
             # safety clause of the invariant, observed: the imported path is absent or loadable
             if not inplace and ('S', 'so') in sc1 and sc1[('S', 'so')][0] != 'C':
-                ctx.violation('final-path-partial', 'kill after %.3fs left a non-loadable file at the imported path although the link target is private' % delay, replay, True)
+                ctx.violation('final-path-partial', 'kill at %s left a non-loadable file at the imported path although the link target is private' % delay, replay, True)
     if reach_note:
         ctx.notes.append('external corruption of an already published entry (not reachable by interrupting this protocol: the link target is a private '
                          'directory and the entry appears by rename) is not survived for: ' + '; '.join(reach_note[:6]))
         ctx.extra['external_corruption_not_survived'] = reach_note
 
     # ---- model answers ---------------------------------------------------------------------------------
+    # every directory a randomly timed SIGKILL leaves must be a directory the model can be killed in
+    kreqs = ['x %s %d %s 1 %s' % (proto, k + 2, ' '.join(['s 0 7'] + ['r 0 0'] * k + ['k 0']), model_paths()) for k in range(nsteps + 1)]
+    kstates = set(a.split(' files ')[1].rsplit(' tmp ', 1)[0] for a in ctx.model('drv_c20', kreqs))
+    # shutil.rmtree is one step (`clean`) in the model but deletes file by file: accept its intermediate directories
+    for st in list(kstates):
+        toks = st.split(' ')
+        if toks[3] == 'C7' and toks[7] == 'A' and toks[4:7] == ['C7'] * 3:
+            for mask in range(8):
+                kstates.add(' '.join(toks[:4] + [('A' if mask >> j & 1 else 'C7') for j in range(3)] + toks[7:]))
+    nk_bad = 0
+    for res in results:
+        if res is not None and res[0] == 'kill':
+            st = states(res[3])
+            if st not in kstates:
+                nk_bad += 1
+                ctx.violation('model-diff:kill-state', 'SIGKILL at %s left the directory `%s`, which is not a state of the model after any number of steps and a kill' % (res[1], st),
+                              {'stream': 'kill', 'kill_point': res[1], 'state': st, 'model_states': sorted(kstates)}, False)
+    ctx.obligation('correspondence: every directory left by a randomly timed SIGKILL is a kill state of the model', nk_bad == 0, '%d outside' % nk_bad)
     answers = ctx.model('drv_c20', model_reqs)
     bad = 0
     for req, ans, (name, real, replay) in zip(model_reqs, answers, model_expect):
@@ -592,7 +636,7 @@ def _run(ctx, lab):
             bad += 1
             rp = dict(replay, model_request=req, model_answer=got, implementation=real)
             # the property itself is evaluated above (record_failure); a pure model/implementation disagreement is reported as such
-            ctx.violation('model-diff:' + name.split(' [')[0].split(' then ')[0], 'model and implementation disagree on "%s": model `%s`, real `%s`' % (name, got, real), rp, False)
+            ctx.violation('model-diff:' + name.split(' ')[0], 'model and implementation disagree on "%s": model `%s`, real `%s`' % (name, got, real), rp, False)
         ctx.count('model-ties')
     ctx.obligation('correspondence: %d model traces equal the real subprocess outcomes (protocol %s)' % (len(model_reqs), 'current' if inplace else 'repaired'),
                    bad == 0, '%d disagreements' % bad)
